@@ -12,10 +12,13 @@
 (* (OrdinaryParse, Ev, Intended).                                               *)
 (*                                                                              *)
 (* C05  CompileCorrect, RenderFaithful, SharedFetcher, StepwiseEqualsFold       *)
-(* C13  NonePropagation, ZeroWhenConfigured, SampleEveryTimestamp               *)
-(*      with the named deviations of the current code                           *)
-(*        Dev_MinMaxDropsNaNOperand       Maximizer/Minimizer.apply: max(x, nan) = x *)
-(*        Dev_DivisionByZeroDropsSample   Divider.apply raises, _run drops the round *)
+(* C13  NoneIff, ZeroWhenConfigured, SampleAlways (hard invariants)              *)
+(*      The step semantics are those of the REPAIRED code (min/max propagate a  *)
+(*      NaN operand, a zero divisor yields NaN).  The two former defects stay   *)
+(*      as named cause predicates over the LEGACY step semantics, so that a     *)
+(*      record on which an old behaviour returns is labelled with its cause:    *)
+(*        Dev_MinMaxDropsNaNOperand       max(x, nan) = x  (NaN second operand dropped) *)
+(*        Dev_DivisionByZeroDropsSample   x / 0 raises, _run drops the round    *)
 (*                                                                              *)
 (* Anchors: formula_engine/_formula_engine.py (_operator_precedence,            *)
 (* FormulaBuilder, _BaseHOFormulaBuilder._push, HigherOrderFormulaBuilder.build,*)
@@ -308,18 +311,29 @@ Input(f, z, i, env) ==
                      IN Fetch(lo, z.glob)
 
 FGt(x, y) == ~IsNaN(x) /\ ~IsNaN(y) /\ RLt(y, x)      \* x > y on floats: FALSE with a NaN
-PyMax(x, y) == IF FGt(y, x) THEN y ELSE x             \* max(x, y)
-PyMin(x, y) == IF FGt(x, y) THEN y ELSE x             \* min(x, y): y if y < x else x
+PyMax(x, y) == IF FGt(y, x) THEN y ELSE x             \* Python max(x, y): x unless y > x
+PyMin(x, y) == IF FGt(x, y) THEN y ELSE x             \* Python min(x, y): x unless y < x
 FNeg(x) == IF IsNaN(x) THEN NaN ELSE RNeg(x)
 FArith(op, x, y) == IF IsNaN(x) \/ IsNaN(y) THEN NaN
                     ELSE CASE op = "+" -> RAdd(x, y) [] op = "-" -> RSub(x, y)
                            [] op = "*" -> RMul(x, y) [] op = "/" -> RQuo(x, y)
 
-\* machine: the eval_stack, the exception that aborted the round, and two cause flags
-M0 == [st |-> <<>>, exc |-> "", drop |-> FALSE]
+\* Step semantics: Cur is the code as it is (Maximizer / Minimizer: nan if either operand is nan;
+\* Divider: nan if the divisor is 0.0).  A legacy flag switches ONE step class back to what it
+\* did before its repair; the legacy variants are only used to name the cause of a failing record.
+Cur == [minmax |-> FALSE, div |-> FALSE]
+LegMinMax == [minmax |-> TRUE, div |-> FALSE]
+LegDiv == [minmax |-> FALSE, div |-> TRUE]
+LegBoth == [minmax |-> TRUE, div |-> TRUE]
+
+\* machine: the eval_stack, the exception that aborted the round, and two CAUSE flags that only
+\* observe the operands (they do not depend on the semantics chosen):
+\*   drop  a max/min step met a NaN second operand next to a number
+\*   div0  a division step met a zero divisor
+M0 == [st |-> <<>>, exc |-> "", drop |-> FALSE, div0 |-> FALSE]
 Push(m, x) == [m EXCEPT !.st = Append(m.st, x)]
 
-ApplyStep(m, s, inp) ==
+ApplyStep(m, s, inp, lg) ==
     IF m.exc # "" THEN m
     ELSE IF s.t = "m" THEN Push(m, inp[s.n])
     ELSE IF s.t = "c" THEN Push(m, R(s.n))
@@ -334,28 +348,34 @@ ApplyStep(m, s, inp) ==
     ELSE LET v2 == m.st[Len(m.st)]
              v1 == m.st[Len(m.st) - 1]
              rest == SubSeq(m.st, 1, Len(m.st) - 2) IN
-         IF s.s = "/" /\ RIsZero(v2) THEN [m EXCEPT !.exc = "ZeroDivisionError"]   \* also nan / 0.0
+         IF s.s = "/" /\ RIsZero(v2)
+         THEN IF lg.div THEN [m EXCEPT !.exc = "ZeroDivisionError", !.div0 = TRUE]   \* (also nan / 0.0)
+              ELSE [m EXCEPT !.st = Append(rest, NaN), !.div0 = TRUE]
          ELSE IF s.s \in ArithOps THEN [m EXCEPT !.st = Append(rest, FArith(s.s, v1, v2))]
-         ELSE [m EXCEPT !.st = Append(rest, IF s.s = "max" THEN PyMax(v1, v2) ELSE PyMin(v1, v2)),
+         ELSE LET py == IF s.s = "max" THEN PyMax(v1, v2) ELSE PyMin(v1, v2)
+                  res == IF lg.minmax THEN py ELSE IF IsNaN(v1) \/ IsNaN(v2) THEN NaN ELSE py IN
+              [m EXCEPT !.st = Append(rest, res),
                         !.drop = m.drop \/ (IsNaN(v2) /\ ~IsNaN(v1))]
 
-RECURSIVE RunFrom(_, _, _, _)
+RECURSIVE RunFrom(_, _, _, _, _)
 \* an exception aborts the round (and inspecting m.exc forces m at every level, see FoldToks)
-RunFrom(m, steps, p, inp) ==
-    IF p > Len(steps) \/ m.exc # "" THEN m ELSE RunFrom(ApplyStep(m, steps[p], inp), steps, p + 1, inp)
-EvalPostfix(steps, inp) == RunFrom(M0, steps, 1, inp)
+RunFrom(m, steps, p, inp, lg) ==
+    IF p > Len(steps) \/ m.exc # "" THEN m ELSE RunFrom(ApplyStep(m, steps[p], inp, lg), steps, p + 1, inp, lg)
+EvalPostfixSem(steps, inp, lg) == RunFrom(M0, steps, 1, inp, lg)
+EvalPostfix(steps, inp) == EvalPostfixSem(steps, inp, Cur)
 
 \* FormulaEvaluator.apply + FormulaEngine._run: one value per fetcher, all steps, then either a
 \* sample (None for nan) or - when apply() raised - nothing at all for this timestamp
-NoOut == [cnt |-> 0, v |-> NaN, exc |-> "", drop |-> FALSE]
-RoundOf(f, z, bb, env) ==
+NoOut == [cnt |-> 0, v |-> NaN, exc |-> "", drop |-> FALSE, div0 |-> FALSE]
+RoundOfSem(f, z, bb, env, lg) ==
     LET inp == [i \in Metrics |-> IF InSeq(i, bb.fetchers) THEN Input(f, z, i, env) ELSE NaN]
-        m == EvalPostfix(bb.steps, inp)
+        m == EvalPostfixSem(bb.steps, inp, lg)
         bad == m.exc # "" \/ Len(m.st) # 1
     IN [cnt |-> IF bad THEN 0 ELSE 1,
         v |-> IF bad THEN NaN ELSE m.st[1],
         exc |-> IF m.exc # "" THEN m.exc ELSE IF Len(m.st) # 1 THEN "RuntimeError" ELSE "",
-        drop |-> m.drop]
+        drop |-> m.drop, div0 |-> m.div0]
+RoundOf(f, z, bb, env) == RoundOfSem(f, z, bb, env, Cur)
 
 -----------------------------------------------------------------------------
 (* Configurations                                                               *)
@@ -512,12 +532,8 @@ StepwiseEqualsFold ==
              /\ \A j \in 1..Len(b.steps) : b.steps[j].s \notin {"(", ")"}
 
 (* C13 *)
-Dev_MinMaxDropsNaNOperand == Ran /\ last.drop
-Dev_DivisionByZeroDropsSample == Ran /\ last.exc = "ZeroDivisionError"
-
 \* a sample that is emitted is None exactly when the intended value is None
 NoneIff == (Ran /\ last.cnt = 1) => (IsNaN(last.v) <=> IsNaN(Want))
-NonePropagation == NoneIff \/ Dev_MinMaxDropsNaNOperand
 \* missing values on streams configured as zero behave exactly like 0
 ZeroWhenConfigured ==
     (Ran /\ HasMissing(cur, Used) /\ \A i \in Used : Missing(cur[i]) => ZEff(front, zc, i)) =>
@@ -526,6 +542,23 @@ ZeroWhenConfigured ==
         /\ (~IsNaN(Want) => (last.cnt = 1 /\ last.v = Want))
 \* every timestamp yields a sample
 SampleAlways == Ran => last.cnt = 1
-SampleEveryTimestamp == SampleAlways \/ Dev_DivisionByZeroDropsSample
+
+\* Former defects as cause predicates: the last round came out as the LEGACY semantics of one
+\* step class give it, on an input where that class met its cause, and not as the current
+\* semantics give it.  Never true of this specification's own behaviours (NoDevNow); the trace
+\* specification evaluates the same predicates on recorded outputs of the real code.
+SameOut(o1, o2) == o1.cnt = o2.cnt /\ o1.v = o2.v
+Legacy(lg) == RoundOfSem(front, zc, b, cur, lg)
+Current == RoundOfSem(front, zc, b, cur, Cur)
+DevOf(lg, out) == LET o == Legacy(lg) IN SameOut(out, o) /\ ~SameOut(out, Current)
+Dev_MinMaxDropsNaNOperand ==
+    Ran /\ \E lg \in {LegMinMax, LegBoth} : Legacy(lg).drop /\ DevOf(lg, last)
+Dev_DivisionByZeroDropsSample ==
+    Ran /\ \E lg \in {LegDiv, LegBoth} : Legacy(lg).div0 /\ DevOf(lg, last)
+NoDevNow == ~Dev_MinMaxDropsNaNOperand /\ ~Dev_DivisionByZeroDropsSample
+\* the legacy semantics differ from the current ones only through the two causes
+LegacyDiffersOnlyByCauses ==
+    Ran => \A lg \in {LegMinMax, LegDiv, LegBoth} :
+              ~SameOut(Legacy(lg), last) => (last.drop \/ last.div0)
 
 =============================================================================
